@@ -1,17 +1,19 @@
 /-
   C11 — Malformed input yields an error, never a crash or runaway resource use.   RPM part (model `Relic.Model.Rpm`):
   every slice / index / length expression reachable from a malformed package in signers/rpm/signer.go and in the go-rpmutils
-  functions it calls, classified.  The property is FALSE for the unchanged code (findings F-RPM-1 .. F-RPM-4); the theorems
-  say exactly when.
+  functions it calls, classified.  The panic part of the property was FALSE before f356386 (findings F-RPM-1 .. F-RPM-3; the
+  `…_orig` theorems say exactly when the library / `nevra()` panic) and holds for the current code: `sign` and `verify` recover
+  every panic into the error "malformed RPM" and `nevra()` returns "" when `GetNEVRA` fails (`rpm_no_panic`).  The allocation
+  part (F-RPM-4) is still false: `rpm_alloc_unbounded`.
 -/
 import Relic.Proofs.Rpm
 namespace Relic.Props.C11
 open Relic Relic.Rpm
 
-/-- **rpm_parse_entry_panic_iff** (F-RPM-1).  `readHeader` panics on an index entry exactly when, for a fixed-size type, the
+/-- **rpm_parse_entry_panic_iff_orig** (F-RPM-1; the library is unchanged, the panic no longer leaves signers/rpm).  `readHeader` panics on an index entry exactly when, for a fixed-size type, the
     offset is negative, `offset + typeSize*count` lies before the offset (negative count) or beyond the data store; for a
     string-like type (6, 8, 9 and every unknown type number), when the offset is negative or beyond the store. -/
-theorem rpm_parse_entry_panic_iff (data e : Bytes) :
+theorem rpm_parse_entry_panic_iff_orig (data e : Bytes) :
     (∃ s, parseEntry data e = .panic s) ↔
       (let off := i32 ((e.drop 8).take 4)
        let cnt := i32 ((e.drop 12).take 4)
@@ -35,9 +37,9 @@ theorem rpm_parse_entry_panic_iff (data e : Bytes) :
 theorem rpm_readheader_panics :
     parseEntry [0, 0, 0, 0] (be32i 1000 ++ be32i 7 ++ be32i 1 ++ be32i 4) = .panic "slice:readHeader.contents" := by decide
 
-/-- **rpm_sha_count0_panics** (F-RPM-2): a SIG_SHA1 / SIG_SHA256 string entry with count 0 (or negative) panics in
+/-- **rpm_sha_count0_panics_orig** (F-RPM-2; library unchanged): a SIG_SHA1 / SIG_SHA256 string entry with count 0 (or negative) panics in
     `getSha1` / `getSha256` (`vals[0]`, `strs[:ent.count]`) — for every tag map holding such an entry. -/
-theorem rpm_sha_count0_panics (m : EMap) (tag : Int) (e : Entry) (hg : get tag m = some e) (hs : isStrType e.typ = true)
+theorem rpm_sha_count0_panics_orig (m : EMap) (tag : Int) (e : Entry) (hg : get tag m = some e) (hs : isStrType e.typ = true)
     (hc : e.count ≤ 0) : ∃ s, getSha m tag = .panic s := by
   unfold getSha getStrings
   rw [hg]
@@ -49,34 +51,103 @@ theorem rpm_sha_count0_panics (m : EMap) (tag : Int) (e : Entry) (hg : get tag m
 
 example : isStrType 6 = true ∧ get 269 ([(269, ⟨6, 0, []⟩)] : EMap) = some ⟨6, 0, []⟩ := by decide
 
-/-- **rpm_nevra_nil_panics** (F-RPM-3, relic's own code): a general header without NAME makes `nevra()` dereference the nil
-    `*NEVRA` that `GetNEVRA` returned together with its error. -/
-theorem rpm_nevra_nil_panics (gen : EMap) (h : get tagName gen = none) : nevraOf gen = .panic "nil:nevra" := by
-  unfold nevraOf getStrings
+/-- **rpm_nevra_nil_panics_orig** (F-RPM-3, relic's own code before f356386): a general header without NAME made `nevra()`
+    dereference the nil `*NEVRA` that `GetNEVRA` returned together with its error. -/
+theorem rpm_nevra_nil_panics_orig (gen : EMap) (h : get tagName gen = none) : nevraOrig gen = .panic "nil:nevra" := by
+  unfold nevraOrig getNevra getStrings
   simp [h]
 
-/-- … and so does `verify` for a package that parses, carries a signature and passes every digest and signature check -/
-theorem rpm_verify_panics_without_name (H : Nat → Bytes → Bytes) (pgp : Bytes → Res SigInfo) (valid : Bytes → Bytes → Bool)
+/-- … and so did `verify` for a package that parses, carries a signature and passes every digest and signature check -/
+theorem rpm_verify_panics_without_name_orig (H : Nat → Bytes → Bytes) (pgp : Bytes → Res SigInfo) (valid : Bytes → Bytes → Bool)
     (known : Option (List Nat)) (nc : Bool) (sig gen : Hdr) (pl : Bytes) (sigs : List Found)
     (hl : libVerifyCore H pgp valid known sig gen pl = .ok sigs) (hne : sigs ≠ []) (h : get tagName gen.ents = none) :
-    verifyCore H pgp valid known nc sig gen pl = .panic "nil:nevra" := by
-  unfold verifyCore
+    verifyCoreOrig H pgp valid known nc sig gen pl = .panic "nil:nevra" := by
+  unfold verifyCoreOrig verifyCoreWith
   rw [hl]
-  simp [hne, rpm_nevra_nil_panics gen.ents h]
+  simp [hne, rpm_nevra_nil_panics_orig gen.ents h]
 
-/-- the full no-panic statement (FALSE on the unchanged code: `rpm_no_panic_false`) -/
-def rpm_no_panic_full : Prop :=
+/-- the no-panic statement for the code before f356386 (FALSE: `rpm_no_panic_false_orig`) -/
+def rpm_no_panic_full_orig : Prop :=
   ∀ (H : Nat → Bytes → Bytes) (pgp : Bytes → Res SigInfo) (valid : Bytes → Bytes → Bool) (known : Option (List Nat)) (nc : Bool) (f : Bytes),
-    (∀ b s, pgp b ≠ .panic s) → ∀ s, verify H pgp valid known nc f ≠ .panic s
+    (∀ b s, pgp b ≠ .panic s) → ∀ s, verifyOrig H pgp valid known nc f ≠ .panic s
+
+def witnessSlice : Bytes :=
+  beBytes 4 magicLead ++ zeros 92 ++ beBytes 4 magicHdr ++ beBytes 4 0 ++ beBytes 4 1 ++ beBytes 4 8 ++
+    (be32i 1000 ++ be32i 7 ++ be32i 9 ++ be32i 1) ++ zeros 8
 
 set_option maxRecDepth 1000000 in
-/-- **rpm_no_panic_false.** A 96-byte lead, a signature header with one entry whose offset points behind its 8-byte store:
-    `verify` panics (replayed on the real code: corpus/C11RPM/rpm-panics.ops). -/
-theorem rpm_no_panic_false : ¬ rpm_no_panic_full := by
+/-- **rpm_no_panic_false_orig.** A 96-byte lead, a signature header with one entry whose offset points behind its 8-byte store:
+    the old `verify` panicked (corpus/C11RPM/rpm-panics.ops, kept as regression op: the answer is now `err malformed`). -/
+theorem rpm_no_panic_false_orig : ¬ rpm_no_panic_full_orig := by
   intro h
-  refine h (fun _ _ => []) (fun _ => .err "x") (fun _ _ => false) none true
-    (beBytes 4 magicLead ++ zeros 92 ++ beBytes 4 magicHdr ++ beBytes 4 0 ++ beBytes 4 1 ++ beBytes 4 8 ++
-      (be32i 1000 ++ be32i 7 ++ be32i 9 ++ be32i 1) ++ zeros 8) (by intro b s hh; cases hh) "slice:readHeader.contents" (by decide)
+  refine h (fun _ _ => []) (fun _ => .err "x") (fun _ _ => false) none true witnessSlice
+    (by intro b s hh; cases hh) "slice:readHeader.contents" (by decide)
+
+/-! ### the current code (f356386) -/
+
+theorem recovered_ne_panic {α : Type} (r : Res α) (s : String) : recovered r ≠ .panic s := by
+  cases r <;> simp [recovered]
+
+theorem recovered_of_panic {α : Type} (r : Res α) (s : String) (h : r = .panic s) : recovered r = .err "malformed" := by
+  subst h; rfl
+
+/-- the full no-panic statement: for EVERY input and EVERY behaviour of the parameters (digests, OpenPGP layer — even one that
+    panics itself, e.g. `crypto.Hash.New` on a hash that is not linked in), neither `sign` nor `verify` panics -/
+def rpm_no_panic_full : Prop :=
+  ∀ (H : Nat → Bytes → Bytes) (mk : Bool → Bytes → Bytes) (pgp : Bytes → Res SigInfo) (valid : Bytes → Bytes → Bool)
+    (known : Option (List Nat)) (nc : Bool) (f : Bytes) (s : String),
+    sign H mk f ≠ .panic s ∧ verify H pgp valid known nc f ≠ .panic s
+
+/-- **rpm_no_panic** (full strength, current code).  No panic leaves signers/rpm. -/
+theorem rpm_no_panic : rpm_no_panic_full := by
+  intro H mk pgp valid known nc f s
+  exact ⟨recovered_ne_panic _ s, recovered_ne_panic _ s⟩
+
+/-- **rpm_former_panic_is_malformed.** Whatever panics below the guard — the parser on an index entry outside the store
+    (`rpm_parse_entry_panic_iff_orig`), `getSha1` / `GetStrings` on a count <= 0 (`rpm_sha_count0_panics_orig`), `GetNEVRA`
+    indexing an empty list, the OpenPGP layer — comes out as the error "malformed RPM". -/
+theorem rpm_former_panic_is_malformed (H : Nat → Bytes → Bytes) (mk : Bool → Bytes → Bytes) (pgp : Bytes → Res SigInfo)
+    (valid : Bytes → Bytes → Bool) (known : Option (List Nat)) (nc : Bool) (f : Bytes) (s : String) :
+    (signWith nevraOf H mk f = .panic s → sign H mk f = .err "malformed") ∧
+    (verifyWith nevraOf H pgp valid known nc f = .panic s → verify H pgp valid known nc f = .err "malformed") ∧
+    (readBoth H f = .panic s → sign H mk f = .err "malformed" ∧ verify H pgp valid known nc f = .err "malformed") := by
+  refine ⟨fun h => recovered_of_panic _ s h, fun h => recovered_of_panic _ s h, fun h => ⟨?_, ?_⟩⟩
+  · apply recovered_of_panic _ s; unfold signWith; rw [h]
+  · apply recovered_of_panic _ s; unfold verifyWith; rw [h]
+
+set_option maxRecDepth 1000000 in
+/-- the witness of `rpm_no_panic_false_orig` on the current code: an error -/
+theorem rpm_witness_now_error :
+    verify (fun _ _ => []) (fun _ => .err "x") (fun _ _ => false) none true witnessSlice = .err "malformed" ∧
+    verifyOrig (fun _ _ => []) (fun _ => .err "x") (fun _ _ => false) none true witnessSlice = .panic "slice:readHeader.contents" := by
+  decide
+
+/-- **rpm_nevra_missing_is_empty** (repair of F-RPM-3).  `nevra()` yields "" whenever `GetNEVRA` returns an error (a tag of
+    NAME / VERSION / RELEASE / ARCH missing or not a string, EPOCH not an integer type) — exactly the inputs on which the old code
+    dereferenced nil; every other outcome is unchanged. -/
+theorem rpm_nevra_missing_is_empty (gen : EMap) :
+    (nevraOrig gen = .panic "nil:nevra" → (∃ e, getNevra gen = .err e) ∨ getNevra gen = .panic "nil:nevra") ∧
+    (∀ e, getNevra gen = .err e → nevraOf gen = .ok [] ∧ nevraOrig gen = .panic "nil:nevra") ∧
+    (∀ v, getNevra gen = .ok v → nevraOf gen = .ok v ∧ nevraOrig gen = .ok v) := by
+  unfold nevraOf nevraOrig
+  cases h : getNevra gen <;> simp
+
+/-- a general header without NAME: "" -/
+theorem rpm_nevra_without_name (gen : EMap) (h : get tagName gen = none) : nevraOf gen = .ok [] := by
+  unfold nevraOf getNevra getStrings
+  simp [h]
+
+/-- … and `verify` reports the signatures, with an empty package name, where the old code panicked
+    (`rpm_verify_panics_without_name_orig`) -/
+theorem rpm_verify_without_name (H : Nat → Bytes → Bytes) (pgp : Bytes → Res SigInfo) (valid : Bytes → Bytes → Bool)
+    (ks : List Nat) (nc : Bool) (sig gen : Hdr) (pl : Bytes) (sigs : List Found)
+    (hl : libVerifyCore H pgp valid (some ks) sig gen pl = .ok sigs) (hne : sigs ≠ []) (h : get tagName gen.ents = none) :
+    verifyCore H pgp valid (some ks) nc sig gen pl = .ok ⟨(dedupe sigs []).map fun s => (s.info.keyid, s.info.hash), []⟩ := by
+  unfold verifyCore verifyCoreWith
+  rw [hl]
+  simp [hne, rpm_nevra_without_name gen.ents h]
+
+example : get tagName ([] : EMap) = none := rfl
 
 set_option maxRecDepth 1000000 in
 /-- **rpm_alloc_unbounded** (F-RPM-4).  A 112-byte file whose signature-header intro declares 0x00500000 entries makes
